@@ -131,7 +131,11 @@ let show_dout = function
   | RVals l -> String.trim ("vals " ^ String.concat " " (List.map (function Some v -> string_of_int (int_of_z v) | None -> "none") l))
   | RPair (k, v) -> "pair " ^ string_of_int (int_of_z k) ^ " " ^ string_of_int (int_of_z v)
   | RKeyError -> "keyerror"
-let dop o = let (m', r) = dstep !dst o in dst := m'; print_string (show_dout r ^ "\n")
+let sst : (z * z) list ref = ref []     (* the rows of the SQL-table model *)
+let dmode = ref 0                         (* 0: dict specification, 1: SQL-table model (Backends.sql_step) *)
+let dop o =
+  if !dmode = 0 then (let (m', r) = dstep !dst o in dst := m'; print_string (show_dout r ^ "\n"))
+  else (let (m', r) = sql_step !sst o in sst := m'; print_string (show_dout r ^ "\n"))
 let ints ws = List.map (fun w -> z_of_int (int_of_string w)) ws
 let rec zpairs = function a :: b :: r -> (a, b) :: zpairs r | _ -> []
 
@@ -185,7 +189,9 @@ let handle (line : string) : bool =
            print_string ((if validate_ok sg' cl' then "1" else "0") ^ " " ^ (if bind_ok sg' cl' then "1" else "0") ^ "\n")
        | _ -> print_string "error k.validate syntax\n");
       true
-  | "d.reset" -> dst := []; print_string "ok\n"; true
+  | "d.reset" -> dst := []; sst := []; print_string "ok\n"; true
+  | "d.mode" -> dmode := (if String.trim rest = "sql" then 1 else 0); print_string "ok\n"; true
+  | "d.rows" -> print_string (String.trim ("rows " ^ String.concat " " (List.map (fun (k, v) -> string_of_int (int_of_z k) ^ ":" ^ string_of_int (int_of_z v)) !sst)) ^ "\n"); true
   | "d.set" -> (match ints (tokenize rest) with [k; v] -> dop (DSet (k, v)) | _ -> print_string "error\n"); true
   | "d.get" -> (match ints (tokenize rest) with [k] -> dop (DGet k) | _ -> print_string "error\n"); true
   | "d.del" -> (match ints (tokenize rest) with [k] -> dop (DDel k) | _ -> print_string "error\n"); true
